@@ -169,9 +169,11 @@ Definition iter_next (h : errh) (s : iter_state) : iter_state * iter_res :=
                   | Ok false => (s, IOut)
                   | Ok true =>
                       (* 66-70: `del self.visit_stack[-1]` removes the LAST entry, whatever it is *)
+                      if is_root node then (s, IOut)           (* fix f0baa0c: stay on the closed interchange node *)
+                      else
                       let st := if in_stack s then removelast (it_stack s) else it_stack s in
                       let s' := {| it_cur := node; it_stack := st |} in
-                      (s', if is_root node then IOut else IOk)
+                      (s', IOk)
                   end
               end
           end
